@@ -287,11 +287,27 @@ def _ord_key(x):
     return (0, repr(x)) if not isinstance(x, Term) else (1, x._h, repr(x))
 
 
+def _c_minus_x(t):
+    """(c, x) if t is the integer term c − x with a constant c"""
+    if isinstance(t, Term) and t.op == "sub" and len(t.args) == 2 and isinstance(t.args[0], int) \
+            and not isinstance(t.args[0], bool) and isinstance(t.args[1], Term) and t.args[1].sort in ("int", "any"):
+        return t.args
+    return None
+
+
+def _plain_int(v):
+    return isinstance(v, int) and not isinstance(v, bool)
+
+
 def t_eq(a, b):
     if not is_sym(a) and not is_sym(b):
         return a == b
     if a is b:
         return True
+    for u, v in ((a, b), (b, a)):
+        cx = _c_minus_x(u)
+        if cx is not None and _plain_int(v):          # c − x == v  ⇔  x == c − v
+            return t_eq(cx[1], cx[0] - v)
     x, y = sorted((a, b), key=_ord_key)
     return Term("eq", (x, y), "bool")
 
@@ -305,6 +321,12 @@ def t_xor(a, b):
 def t_lt(a, b):
     if not is_sym(a) and not is_sym(b):
         return a < b
+    cx = _c_minus_x(a)
+    if cx is not None and _plain_int(b):              # c − x < b  ⇔  c − b < x
+        return t_lt(cx[0] - b, cx[1])
+    cx = _c_minus_x(b)
+    if cx is not None and _plain_int(a):              # a < c − x  ⇔  x < c − a
+        return t_lt(cx[1], cx[0] - a)
     return Term("lt", (a, b), "bool")
 
 
